@@ -21,6 +21,11 @@ func (o *Optimizer) init() error {
 		return err
 	}
 	o.stmt = stmt
+	// The parser accepts any call (a function can be registered after a
+	// statement is parsed); a plan is only built from calls that can run
+	if err := checkStmtFuncCalls(stmt); err != nil {
+		return err
+	}
 	switch vstmt := stmt.(type) {
 	case *SelectStmt:
 		o.optimizeSelectExpressions(vstmt)
@@ -31,6 +36,85 @@ func (o *Optimizer) init() error {
 		o.optimizeDeleteExpressions(vstmt)
 		o.filter = &FilterExec{
 			Ast: vstmt.Where,
+		}
+	}
+	return nil
+}
+
+// checkFuncCalls refuses a call of a function that is not registered and a
+// call with a number of arguments the function does not take
+func checkFuncCalls(expr Expression) error {
+	var ferr error
+	seen := make(map[Expression]bool)
+	expr.Walk(func(e Expression) bool {
+		if ferr != nil {
+			return false
+		}
+		if ref, ok := e.(*FieldReferenceExpr); ok {
+			if seen[ref.FieldExpr] {
+				return false
+			}
+			seen[ref.FieldExpr] = true
+		}
+		call, ok := e.(*FunctionCallExpr)
+		if !ok {
+			return true
+		}
+		fname, err := GetFuncNameFromExpr(call)
+		if err != nil {
+			ferr = err
+			return false
+		}
+		name, numArgs, varArgs := "", 0, false
+		if f, have := GetScalarFunctionByName(fname); have {
+			name, numArgs, varArgs = f.Name, f.NumArgs, f.VarArgs
+		} else if f, have := GetAggrFunctionByName(fname); have {
+			name, numArgs, varArgs = f.Name, f.NumArgs, f.VarArgs
+		} else {
+			ferr = NewSyntaxError(call.GetPos(), "Cannot find function %s", fname)
+			return false
+		}
+		if !varArgs && len(call.Args) != numArgs {
+			ferr = NewSyntaxError(call.GetPos(), "Function %s require %d arguments but got %d", name, numArgs, len(call.Args))
+		} else if varArgs && len(call.Args) < numArgs {
+			ferr = NewSyntaxError(call.GetPos(), "Function %s require at least %d arguments but got %d", name, numArgs, len(call.Args))
+		}
+		return ferr == nil
+	})
+	return ferr
+}
+
+func checkStmtFuncCalls(stmt Statement) error {
+	var exprs []Expression
+	switch s := stmt.(type) {
+	case *SelectStmt:
+		exprs = append(exprs, s.Fields...)
+		exprs = append(exprs, s.Where.Expr)
+		if s.GroupBy != nil {
+			for _, f := range s.GroupBy.Fields {
+				exprs = append(exprs, f.Expr)
+			}
+		}
+		if s.Order != nil {
+			for _, f := range s.Order.Orders {
+				exprs = append(exprs, f.Field)
+			}
+		}
+	case *DeleteStmt:
+		exprs = append(exprs, s.Where.Expr)
+	case *PutStmt:
+		for _, kv := range s.KVPairs {
+			exprs = append(exprs, kv.Key, kv.Value)
+		}
+	case *RemoveStmt:
+		exprs = append(exprs, s.Keys...)
+	}
+	for _, expr := range exprs {
+		if expr == nil {
+			continue
+		}
+		if err := checkFuncCalls(expr); err != nil {
+			return err
 		}
 	}
 	return nil
